@@ -25,7 +25,14 @@ def parse(trace):
             cur = {"i": i, "n": e[1], "kind": e[2], "key": e[3], "t": e[4],
                    "pos": e[5] if len(e) > 5 else None, "reqs": []}
             cbs.append(cur)
-        elif e[0] == "req" and cur is not None:
+        elif e[0] == "req":
+            if cur is None:
+                # issued outside any callback: through the provider between build() and the first step
+                cur = {"i": i, "n": e[1], "kind": "prestart", "key": "", "t": 0, "pos": None, "reqs": []}
+                cbs.append(cur)
+            elif cur["kind"] == "prestart" and cur["n"] != e[1]:
+                cur = {"i": i, "n": e[1], "kind": "prestart", "key": "", "t": 0, "pos": None, "reqs": []}
+                cbs.append(cur)
             cur["reqs"].append((e[2], e[3], i))
         else:
             cur = None
